@@ -4,6 +4,7 @@
    Spec/GrammarIts.v, Spec/GrammarStave.v).  Calibration data words are outside the word-level grammar. *)
 From Coq Require Import List NArith Bool.
 From FP Require Import Model.Base Model.Rdh Model.RdhChecks Model.CdpRunning Model.Scanner Model.Link Spec.Grammar Spec.GrammarIts Spec.GrammarItsCheck Proofs.C01_rdh Proofs.C01_its Proofs.C01_check Proofs.C01_stave Proofs.C01_stave_check.
+From FP Require Import Spec.GrammarItsCdw Spec.GrammarItsCdwCheck Proofs.C01_its_cdw Proofs.C01_cdw_check.
 From FP Require Import Model.Alpide Spec.GrammarStave Spec.GrammarStaveCheck.
 From FP Require Gen.Facts.
 Import ListNotations.
@@ -47,6 +48,22 @@ Proof. exact link_witness_sound. Qed.
 Theorem C01_membership_test_nonvacuous : link_witness Example.ld = Some [Example.ih 10; Example.ih 11].
 Proof. vm_compute. reflexivity. Qed.
 
+(* calibration runs: the word-level grammar extended by calibration data words (Spec/GrammarItsCdw.v) -- the data of a page may be
+   led by a CDW, right behind the first TDH of the page that announces data; when its user fields differ from those of the CDW
+   before it on the link its word index is 0 (checks_list.md) -- draws no message either, in both ITS modes; through the extracted
+   membership test the theorem applies to every calibration link the generator produces *)
+Theorem C01_its_tier_calibration : forall ld chs running ps, wf_link_its_cdw ld chs -> map strip ps = render_link ld ->
+  run_validator (its_cfg running) ps = Ok [].
+Proof. exact c01_its_cdw_link. Qed.
+Theorem C01_its_tier_calibration_checked : forall ld chs running ps, link_witness_cdw ld = Some chs -> map strip ps = render_link ld ->
+  run_validator (its_cfg running) ps = Ok [].
+Proof. exact (fun ld chs running ps H => c01_its_cdw_link ld chs running ps (link_witness_cdw_sound ld chs H)). Qed.
+Theorem C01_calibration_membership_test_sound : forall ld chs, link_witness_cdw ld = Some chs -> wf_link_its_cdw ld chs.
+Proof. exact link_witness_cdw_sound. Qed.
+Theorem C01_calibration_nonvacuous :
+  link_witness_cdw ExampleC.ldc = Some [ExampleC.ch10; ExampleC.ch11] /\ length (render_link ExampleC.ldc) = 8%nat.
+Proof. split; [exact ExampleC.accepted|reflexivity]. Qed.
+
 (* the stave tier: if moreover every trigger packet is stave-conforming -- its data words, grouped by lane, are the bytes of ALPIDE
    lanes as the independent encoder produces them (any hits, regions, busy words, idle bytes), every lane with at least one chip, no
    fatal announcement, no chip twice, all chips of all lanes in one bunch crossing, an inner-barrel lane carrying exactly the chip named
@@ -75,6 +92,10 @@ Print Assumptions C01_stave_membership_test_nonvacuous.
 Print Assumptions C01_its_nonvacuous.
 Print Assumptions C01_its_tier_checked.
 Print Assumptions C01_membership_test_nonvacuous.
+Print Assumptions C01_its_tier_calibration.
+Print Assumptions C01_its_tier_calibration_checked.
+Print Assumptions C01_calibration_membership_test_sound.
+Print Assumptions C01_calibration_nonvacuous.
 Print Assumptions C01_rendered_rdh_is_sane.
 Print Assumptions C01_rendered_page_keeps_running_invariant.
 Print Assumptions C01_nonvacuous.
